@@ -116,6 +116,8 @@ def main():
                     if rc2 == 1 and viol2:
                         caught.append(q)
                         meta.setdefault('other_checks', {})[q] = reasons2[:1]
+                        if len(caught) >= 2:
+                            break
             meta['detected_by'] = caught
             print(name, 'DETECTED by' if caught else 'MISSED', caught, reasons[:1], flush=True)
         meta['ran'] = 'tools/seedtest.py: scratch worktree %s; go build; baseline suite; demonstration on clean and changed builds; ./check %s --tier quick with BORNO_REPO=%s' % (WT, pid, WT)
